@@ -614,11 +614,12 @@ pub fn registry(prop: &str) -> Option<Check> {
             real,
             stub,
         },
+        "C04" => crate::props::c04::check(),
         _ => return None,
     })
 }
 
-pub const ALL_PROPS: [&str; 4] = ["C01", "C02", "C03", "C18"];
+pub const ALL_PROPS: [&str; 5] = ["C01", "C02", "C03", "C04", "C18"];
 
 #[allow(dead_code)]
 fn _unused() {
